@@ -81,10 +81,10 @@ Proof.
   - eapply mem_rest_unhooked; eauto. apply mem_top_rest. exact Hm.
 Qed.
 
-Lemma step_Throw : forall st s, Inv st s -> flight st = false ->
+Lemma Inv_throw : forall st s, Inv st s -> exc st = false ->
   Inv (mk st (frames st) true true 0 []) (do_throw s).
 Proof.
-  intros st s H Hf. pose proof (exc_false_of_flight _ _ H Hf) as He.
+  intros st s H He.
   pose proof (Inv_rs_plain _ _ H He) as Hrs.
   constructor; simpl.
   - exact (i_sorted _ _ H).
@@ -101,6 +101,10 @@ Proof.
   - intros _. constructor.
   - intros _. constructor.
 Qed.
+
+Lemma step_Throw : forall st s, Inv st s -> flight st = false ->
+  Inv (mk st (frames st) true true 0 []) (do_throw s).
+Proof. intros st s H Hf. apply Inv_throw; [exact H|]. eapply exc_false_of_flight; eauto. Qed.
 
 Lemma step_Unwind : forall st s f rest, Inv st s -> frames st = f :: rest -> exc st = true -> extra st = 0 ->
   Inv (mk st rest true true 0 (match f_pend f with [] => stale st | _ => f_slot f :: stale st end)) s.
@@ -136,56 +140,8 @@ Proof.
   - intros _. constructor.
 Qed.
 
-Lemma mem_N_false : forall x l, mem_N x l = false -> ~ In x l.
-Proof.
-  induction l as [|y r IH]; simpl; intros H Hin; [exact Hin|]. apply orb_false_elim in H. destruct H as [H1 H2].
-  destruct Hin as [Hin|Hin]; [subst; rewrite N.eqb_refl in H1; discriminate|exact (IH H2 Hin)].
-Qed.
-
 Lemma base_extra0 : forall st, extra st = 0 -> base st = frames st.
 Proof. intros st H. unfold base. rewrite H. reflexivity. Qed.
-
-Lemma step_Resume : forall st s sl r, Inv st s -> flight st = true -> below_top (frames st) sl = true ->
-  valid_ra r = true -> extra st = 0 -> mem_N sl (stale st) = false ->
-  let s1 := do_throw (with_m s (upd (m s) sl r)) in
-  m s1 sl = r /\ Inv (mk st (frames st) true true 0 (stale st)) s1.
-Proof.
-  intros st s sl r H Hf Hb Hv Hx Hns s1.
-  pose proof (below_top_lt_all _ _ (i_sorted _ _ H) Hb) as Hlt.
-  destruct (i_shadow _ _ H) as [S [L [S1 [S2 [S3 S4]]]]].
-  assert (HSloc : forall e, In e S -> lt_all (e_loc e) (frames st)).
-  { intros e Hin. destruct (exc st) eqn:He.
-    - pose proof (i_stale _ _ H He) as Hst. rewrite (base_extra0 _ Hx) in Hst. rewrite Forall_forall in Hst. apply Hst. apply S3. exact Hin.
-    - rewrite (S4 eq_refl) in Hin. contradiction. }
-  assert (Hm1 : m s1 = restore_all_p (shadow (frames st)) (restore_all_p (map proj S) (upd (m s) sl r))).
-  { unfold s1, do_throw; simpl. rewrite restore_all_proj, S1, map_app, restore_all_p_app, S2. reflexivity. }
-  split.
-  - rewrite Hm1. rewrite restore_all_p_other by (intros x Hin; eapply shadow_loc_ne; eauto).
-    rewrite restore_all_p_other; [apply upd_same|].
-    intros x Hin. apply in_map_iff in Hin. destruct Hin as [e [Hpe Hin]]. subst x. unfold p_loc, proj; simpl.
-    intro Heq. apply (mem_N_false _ _ Hns). rewrite <- Heq. apply S3. exact Hin.
-  - constructor; simpl.
-    + exact (i_sorted _ _ H).
-    + exact (i_valid _ _ H).
-    + eapply ids_ok_gen with (st := st); [exact (i_ids _ _ H)|simpl; lia|reflexivity|exact (proj1 (i_ids _ _ H))].
-    + eapply jb_inv_mono with (st := st) (s := s); [exact (i_jb _ _ H)|reflexivity|reflexivity|reflexivity|auto].
-    + reflexivity.
-    + reflexivity.
-    + exact (i_nolj _ _ H).
-    + exists S, L. repeat split; auto. intros; discriminate.
-    + change (mem_exc (m s1) (frames st)). rewrite Hm1.
-      apply restore_all_shadow_exc; [exact (i_sorted _ _ H)|exact (i_valid _ _ H)|].
-      intros f Hin Hp. rewrite restore_all_p_other.
-      * rewrite upd_other; [eapply unhooked_real; eauto|].
-        unfold lt_all in Hlt. rewrite Forall_forall in Hlt. specialize (Hlt f Hin). lia.
-      * intros x Hx'. apply in_map_iff in Hx'. destruct Hx' as [e [Hpe Hine]]. subst x. unfold p_loc, proj; simpl.
-        specialize (HSloc e Hine). unfold lt_all in HSloc. rewrite Forall_forall in HSloc. specialize (HSloc f Hin). lia.
-    + intros; discriminate.
-    + intros _. unfold base; simpl. destruct (exc st) eqn:He.
-      * pose proof (i_stale _ _ H He) as Hst. rewrite (base_extra0 _ Hx) in Hst. exact Hst.
-      * rewrite (i_stale0 _ _ H He). constructor.
-    + intros _. constructor.
-Qed.
 
 Lemma shadow_loc_ge_top : forall f r y, sorted (f :: r) -> In y (shadow (f :: r)) -> f_slot f <= p_loc y.
 Proof.
@@ -277,6 +233,46 @@ Proof.
     pose proof (shadow_loc_ge_top f rest y Hs Hin). lia.
 Qed.
 
+(* memory outside the live hooked slots is not touched by the re-hook *)
+Lemma rehook_exception_mem_other : forall st s fa a, Inv st s -> exc st = true ->
+  (forall x, In x (stale st) -> x <= fa) -> (forall y, In y (shadow (frames st)) -> fa < p_loc y) ->
+  (forall y, In y (shadow (frames st)) -> p_loc y <> a) -> m (rehook_exception s fa) a = m s a.
+Proof.
+  intros st s fa a H He Hst Hsh Ha.
+  destruct (i_shadow _ _ H) as [S [L [S1 [S2 [S3 S4]]]]].
+  pose proof (i_mem _ _ H) as Hm. rewrite He in Hm.
+  destruct (rehook_exception_spec s fa (frames st) S L S1 S2 (i_sorted _ _ H) (i_valid _ _ H) (i_nolj _ _ H))
+    as [_ [_ [_ [R4 _]]]]; [intros e Hin; apply Hst; apply S3; exact Hin|exact Hsh|exact Hm|].
+  apply R4. exact Ha.
+Qed.
+
+(* the _Unwind_Resume wrapper (after fix 0bd540c): the entries of the frames dropped so far go first *)
+Lemma step_Resume : forall st s sl r, Inv st s -> flight st = true -> below_top (frames st) sl = true ->
+  valid_ra r = true -> extra st = 0 -> (forall x, In x (stale st) -> x <= sl) ->
+  m (do_resume (with_m s (upd (m s) sl r)) sl) sl = r /\
+  Inv (mk st (frames st) true true 0 []) (do_resume (with_m s (upd (m s) sl r)) sl).
+Proof.
+  intros st s sl r H Hf Hb Hv Hx Hst.
+  pose proof (below_top_lt_all _ _ (i_sorted _ _ H) Hb) as Hlt.
+  pose proof (step_Poke st s sl r H Hb) as H0. set (s0 := with_m s (upd (m s) sl r)) in *.
+  assert (Hsh : forall y, In y (shadow (frames st)) -> sl < p_loc y) by (intros y Hin; eapply shadow_loc_gt; eauto).
+  assert (Hne : forall y, In y (shadow (frames st)) -> p_loc y <> sl) by (intros y Hin; specialize (Hsh y Hin); lia).
+  unfold do_resume. destruct (exc st) eqn:He.
+  - assert (Hi0 : inexc s0 = true) by (rewrite (i_excb _ _ H0); exact He). rewrite Hi0.
+    pose proof (Inv_after_rehook st s0 sl true H0 He Hx Hst Hsh) as H1.
+    set (sR := with_exc (rehook_exception s0 sl) false) in *.
+    change (do_throw (rehook_exception s0 sl)) with (do_throw sR).
+    pose proof (Inv_throw _ _ H1 eq_refl) as H2. split; [|exact H2].
+    unfold do_throw; cbn [m]. rewrite restore_all_proj. rewrite (Inv_rs_plain _ _ H1 eq_refl). cbn [frames mk].
+    rewrite restore_all_p_other by exact Hne.
+    unfold sR; cbn [m with_exc]. rewrite (rehook_exception_mem_other st s0 sl sl H0 He Hst Hsh Hne).
+    unfold s0; cbn [m with_m]. apply upd_same.
+  - assert (Hi0 : inexc s0 = false) by (rewrite (i_excb _ _ H0); exact He). rewrite Hi0.
+    pose proof (Inv_throw _ _ H0 He) as H2. split; [|exact H2].
+    unfold do_throw; cbn [m]. rewrite restore_all_proj. rewrite (Inv_rs_plain _ _ H0 He).
+    rewrite restore_all_p_other by exact Hne. unfold s0; cbn [m with_m]. apply upd_same.
+Qed.
+
 (* ================================================================ pushing a hooked frame *)
 Lemma mem_top_ext : forall F m1 m2, (forall a, m1 a = m2 a) -> mem_top m1 F -> mem_top m2 F.
 Proof.
@@ -339,7 +335,7 @@ Proof.
   assert (Hi : inexc s = false) by (rewrite (i_excb _ _ H); exact He).
   pose proof (below_top_lt_all _ _ (i_sorted _ _ H) Hb) as Hlt.
   unfold mcount_entry. simpl inexc. rewrite Hi.
-  eapply Inv_push_hooked with (s := s) (e := new_ent (with_m s (upd (m s) sl r)) false k sl) (L' := rs s)
+  eapply Inv_push_hooked with (s := s) (e := new_ent (with_m s (upd (m s) sl r)) false k sl SNormal) (L' := rs s)
      (mm := upd (m s) sl r); eauto.
   - unfold new_ent, proj; simpl. rewrite upd_same. reflexivity.
   - exact (i_nolj _ _ H).
@@ -385,23 +381,23 @@ Proof.
     destruct (rehook_exception_spec s0 fa' (frames st) S L S1 S2 (i_sorted _ _ H) (i_valid _ _ H) (i_nolj _ _ H0))
       as [_ [_ [_ [R4 _]]]]; [intros e Hin; apply Hst; apply S3; exact Hin|intros y Hin; eapply shadow_loc_gt; eauto|exact Hm|].
     rewrite R4; [unfold s0; simpl; apply upd_same|]. intros y Hin. eapply shadow_loc_ne; eauto. }
-  eapply Inv_push_hooked with (s := s1) (e := new_ent s1 false k sl) (L' := rs s1) (mm := m s1); eauto.
+  eapply Inv_push_hooked with (s := s1) (e := new_ent s1 false k sl SNormal) (L' := rs s1) (mm := m s1); eauto.
   - unfold new_ent, proj; simpl. change (m (rehook_exception s0 fa') sl) with (m s1 sl). rewrite Hsl. reflexivity.
   - exact (i_nolj _ _ H1).
   - apply mem_top_plain; [exact H1|reflexivity].
 Qed.
 
 (* ================================================================ PLT calls (no exception in flight in libmcount's eyes) *)
-Lemma plt_entry_common : forall st s k sl r, Inv st s -> exc st = false ->
+Lemma plt_entry_common : forall st s k sl r kk, Inv st s -> exc st = false ->
   below_top (frames st) sl = true -> valid_ra r = true ->
   let s0 := with_m s (upd (m s) sl r) in
-  let e := new_ent s0 true k sl in
+  let e := new_ent s0 true k sl kk in
   let m1 := auto_restore false (e :: rs s) (upd (upd (m s) sl r) sl PRET) in
   forall e1 anc1 s', rs s' = e1 :: anc1 -> proj e1 = (sl, r, true) -> e_lj e1 = false ->
     map proj anc1 = map proj (rs s) -> nolj anc1 -> m s' = m1 -> inexc s' = false -> jbs s' = jbs s -> jpc s' = jpc s ->
     Inv (push st sl r [true]) s'.
 Proof.
-  intros st s k sl r H He Hb Hv s0 e m1 e1 anc1 s' Hrs Hp Hlj Hanc Hnl Hm Hi Hj1 Hj2.
+  intros st s k sl r kk H He Hb Hv s0 e m1 e1 anc1 s' Hrs Hp Hlj Hanc Hnl Hm Hi Hj1 Hj2.
   pose proof (below_top_lt_all _ _ (i_sorted _ _ H) Hb) as Hlt.
   eapply Inv_push_hooked with (s := s) (e := e1) (L' := anc1) (mm := upd (m s) sl r); eauto.
   - apply mem_top_upd_below; [exact Hlt|]. apply mem_top_plain; assumption.
@@ -412,17 +408,20 @@ Proof.
     rewrite E1. reflexivity.
 Qed.
 
-(* what plthook_entry pushes, before the special handling *)
-Definition plt_triple (s : lst) (k sl r : N) (fl : bool) : ent * list ent * list rec :=
-  let s0 := with_m s (upd (m s) sl r) in
-  if fl then rtd (new_ent s0 true k sl) (rs s0) else (new_ent s0 true k sl, rs s0, []).
+Lemma plthook_entry_noexc : forall s kd k loc arg, inexc s = false -> plthook_entry s kd k loc arg = plthook_push s kd k loc arg.
+Proof. intros s kd k loc arg H. unfold plthook_entry. rewrite H. reflexivity. Qed.
 
-Lemma plt_pushed : forall s k sl r (fl : bool), nolj (rs s) ->
-  let t := plt_triple s k sl r fl in
+(* what plthook_entry pushes, before the special handling *)
+Definition plt_triple (s : lst) (k sl r : N) (kk : skd) (fl : bool) : ent * list ent * list rec :=
+  let s0 := with_m s (upd (m s) sl r) in
+  if fl then rtd (new_ent s0 true k sl kk) (rs s0) else (new_ent s0 true k sl kk, rs s0, []).
+
+Lemma plt_pushed : forall s k sl r kk (fl : bool), nolj (rs s) ->
+  let t := plt_triple s k sl r kk fl in
   proj (fst (fst t)) = (sl, r, true) /\ e_lj (fst (fst t)) = false /\
   map proj (snd (fst t)) = map proj (rs s) /\ nolj (snd (fst t)).
 Proof.
-  intros s k sl r fl Hnl. unfold plt_triple. set (s0 := with_m s (upd (m s) sl r)). set (e := new_ent s0 true k sl).
+  intros s k sl r kk fl Hnl. unfold plt_triple. set (s0 := with_m s (upd (m s) sl r)). set (e := new_ent s0 true k sl kk).
   assert (He : proj e = (sl, r, true)) by (unfold e, new_ent, proj, s0; simpl; rewrite upd_same; reflexivity).
   destruct fl.
   - pose proof (rtd_proj e (rs s0)) as R. pose proof (rtd_top_lj e (rs s0)) as Rl. pose proof (rtd_nolj e (rs s0) Hnl) as Rn.
@@ -437,14 +436,14 @@ Lemma step_Plt_plain : forall st s kd k sl r arg, Inv st s -> exc st = false ->
 Proof.
   intros st s kd k sl r arg H He Hb Hv Hk.
   assert (Hi : inexc s = false) by (rewrite (i_excb _ _ H); exact He).
-  pose proof (plt_pushed s k sl r (is_flush kd) (i_nolj _ _ H)) as P.
-  unfold plthook_entry. simpl inexc. rewrite Hi.
-  change (if is_flush kd then rtd (new_ent (with_m s (upd (m s) sl r)) true k sl) (rs (with_m s (upd (m s) sl r)))
-          else (new_ent (with_m s (upd (m s) sl r)) true k sl, rs (with_m s (upd (m s) sl r)), []))
-    with (plt_triple s k sl r (is_flush kd)).
-  destruct (plt_triple s k sl r (is_flush kd)) as [[e1 anc1] recs]. simpl in P.
+  pose proof (plt_pushed s k sl r (kind_of kd arg) (is_flush kd) (i_nolj _ _ H)) as P.
+  rewrite plthook_entry_noexc by exact Hi. unfold plthook_push. simpl inexc. rewrite Hi.
+  change (if is_flush kd then rtd (new_ent (with_m s (upd (m s) sl r)) true k sl (kind_of kd arg)) (rs (with_m s (upd (m s) sl r)))
+          else (new_ent (with_m s (upd (m s) sl r)) true k sl (kind_of kd arg), rs (with_m s (upd (m s) sl r)), []))
+    with (plt_triple s k sl r (kind_of kd arg) (is_flush kd)).
+  destruct (plt_triple s k sl r (kind_of kd arg) (is_flush kd)) as [[e1 anc1] recs]. simpl in P.
   destruct P as [P1 [P2 [P3 P4]]].
-  destruct Hk as [Hk|Hk]; subst kd; eapply plt_entry_common with (k := k) (e1 := e1) (anc1 := anc1); eauto.
+  destruct Hk as [Hk|Hk]; subst kd; eapply plt_entry_common with (k := k) (kk := SNormal) (e1 := e1) (anc1 := anc1); eauto.
 Qed.
 
 (* ================================================================ tail calls *)
@@ -512,7 +511,7 @@ Proof.
   intros st s k f rest fa H He HF Hh.
   assert (Hi : inexc s = false) by (rewrite (i_excb _ _ H); exact He).
   unfold mcount_entry. rewrite Hi.
-  eapply Inv_tail with (s := s) (e := new_ent s false k (f_slot f)) (L' := rs s); eauto.
+  eapply Inv_tail with (s := s) (e := new_ent s false k (f_slot f) SNormal) (L' := rs s); eauto.
   - apply all_homogeneous_spec. exact Hh.
   - exact (i_nolj _ _ H).
   - intros a. simpl. rewrite Hi. reflexivity.
@@ -525,8 +524,8 @@ Lemma step_TPlt : forall st s k f rest, Inv st s -> exc st = false -> frames st 
 Proof.
   intros st s k f rest H He HF Hh.
   assert (Hi : inexc s = false) by (rewrite (i_excb _ _ H); exact He).
-  unfold plthook_entry. simpl. rewrite Hi.
-  eapply Inv_tail with (s := s) (e := new_ent s true k (f_slot f)) (L' := rs s); eauto.
+  rewrite plthook_entry_noexc by exact Hi. unfold plthook_push. simpl. rewrite Hi.
+  eapply Inv_tail with (s := s) (e := new_ent s true k (f_slot f) SNormal) (L' := rs s); eauto.
   - apply all_homogeneous_spec. exact Hh.
   - exact (i_nolj _ _ H).
 Qed.
@@ -644,14 +643,14 @@ Proof.
   intros st s k sl r arg H He Hfl Hb Hv s1 st1.
   assert (Hi : inexc s = false) by (rewrite (i_excb _ _ H); exact He).
   pose proof (below_top_lt_all _ _ (i_sorted _ _ H) Hb) as Hlt.
-  pose proof (plt_pushed s k sl r false (i_nolj _ _ H)) as P. unfold plt_triple in P. simpl in P.
+  pose proof (plt_pushed s k sl r (SSetjmp arg) false (i_nolj _ _ H)) as P. unfold plt_triple in P. simpl in P.
   destruct P as [P1 [P2 [P3 P4]]].
-  set (e := new_ent (with_m s (upd (m s) sl r)) true k sl) in *.
+  set (e := new_ent (with_m s (upd (m s) sl r)) true k sl (SSetjmp arg)) in *.
   set (m1 := auto_restore false (e :: rs s) (upd (upd (m s) sl r) sl PRET)).
   (* the state without the jmp_buf bookkeeping *)
   set (s0 := {| rs := e :: rs s; ridx := ridx s + 1; inexc := false; m := m1; jbs := jbs s; jpc := jpc s; out := out s ++ [] |}).
   assert (H0 : Inv st1 s0).
-  { unfold st1. eapply plt_entry_common with (k := k) (e1 := e) (anc1 := rs s) (s' := s0); eauto. }
+  { unfold st1. eapply plt_entry_common with (k := k) (kk := SSetjmp arg) (e1 := e) (anc1 := rs s) (s' := s0); eauto. }
   assert (Hpc : m1 sl = PRET).
   { pose proof (Inv_rs_plain _ _ H He) as Hplain.
     destruct (push_mem (frames st) (rs s) (upd (m s) sl r) sl PRET e Hplain (i_sorted _ _ H) (i_valid _ _ H) Hlt) as [M1 _]; auto.
@@ -661,7 +660,7 @@ Proof.
                    jpc := (arg, m s1 sl) :: jpc s1; out := out s1 |} =
                 {| rs := rs s0; ridx := ridx s0; inexc := inexc s0; m := m s0;
                    jbs := (arg, (ridx s + 1, e :: rs s)) :: jbs s0; jpc := (arg, m1 sl) :: jpc s0; out := out s0 |}).
-  { unfold s1, plthook_entry, s0. cbn [is_flush rs ridx inexc m jbs jpc out with_m]. rewrite Hi. reflexivity. }
+  { unfold s1. rewrite plthook_entry_noexc by exact Hi. unfold plthook_push, s0. cbn [is_flush kind_of rs ridx inexc m jbs jpc out with_m]. rewrite Hi. reflexivity. }
   assert (Hste : {| frames := frames st1; next_id := next_id st1; jbt := (arg, (frames st, r)) :: jbt st;
                     flight := false; exc := false; extra := 0; stale := [] |} =
                  {| frames := frames st1; next_id := next_id st1; jbt := (arg, (frames st, r)) :: jbt st1;
@@ -689,14 +688,14 @@ Proof.
   assert (Hi : inexc s = false) by (rewrite (i_excb _ _ H); exact He).
   pose proof (below_top_lt_all _ _ (i_sorted _ _ H) Hb) as Hlt.
   destruct (i_jb _ _ H arg saved rsj Ha Hsuf) as [ri [snap [sl0 [J1 [J2 [J3 [J4 [J5 J6]]]]]]]].
-  pose proof (plt_pushed s k sl r true (i_nolj _ _ H)) as P. unfold plt_triple in P.
-  set (e := new_ent (with_m s (upd (m s) sl r)) true k sl) in *.
+  pose proof (plt_pushed s k sl r (SLongjmp arg) true (i_nolj _ _ H)) as P. unfold plt_triple in P.
+  set (e := new_ent (with_m s (upd (m s) sl r)) true k sl (SLongjmp arg)) in *.
   set (m1 := auto_restore false (e :: rs s) (upd (upd (m s) sl r) sl PRET)).
   destruct (rtd e (rs (with_m s (upd (m s) sl r)))) as [[e1 anc1] recs] eqn:Ertd. simpl in P.
   destruct P as [P1 [P2 [P3 P4]]].
   assert (Hs1 : s1 = {| rs := set_end (set_lj e1 true) arg :: anc1; ridx := ridx s + 1; inexc := false; m := m1;
                         jbs := jbs s; jpc := jpc s; out := out s ++ recs |}).
-  { unfold s1, plthook_entry. cbn [is_flush rs ridx inexc m jbs jpc out with_m]. fold e. rewrite Hi.
+  { unfold s1. rewrite plthook_entry_noexc by exact Hi. unfold plthook_push. cbn [is_flush kind_of rs ridx inexc m jbs jpc out with_m]. fold e. rewrite Hi.
     change (rs (with_m s (upd (m s) sl r))) with (rs s) in Ertd. rewrite Ertd. reflexivity. }
   (* the memory after the entry hook: every live slot is "hooked or real" *)
   assert (Hm1 : mem_rest m1 (frames st)).
@@ -749,4 +748,44 @@ Proof.
     + reflexivity.
     + intros; discriminate.
     + intros; discriminate.
+Qed.
+
+(* ================================================================ library call from a landing pad *)
+Lemma step_Plt_exc : forall st s kd k sl r arg, Inv st s -> exc st = true -> extra st = 0 ->
+  below_top (frames st) sl = true -> valid_ra r = true -> (kd = KNone \/ kd = KFlush) ->
+  (forall x, In x (stale st) -> x <= sl) ->
+  Inv (bump (mk st (fresh st sl r [true] :: frames st) true false 1 []))
+      (plthook_entry (with_m s (upd (m s) sl r)) kd k sl arg).
+Proof.
+  intros st s kd k sl r arg H He Hx Hb Hv Hk Hst.
+  pose proof (step_Poke st s sl r H Hb) as H0. set (s0 := with_m s (upd (m s) sl r)) in *.
+  assert (Hi0 : inexc s0 = true) by (unfold s0; simpl; rewrite (i_excb _ _ H); exact He).
+  pose proof (below_top_lt_all _ _ (i_sorted _ _ H) Hb) as Hlt.
+  assert (Hsh : forall y, In y (shadow (frames st)) -> sl < p_loc y) by (intros y Hin; eapply shadow_loc_gt; eauto).
+  assert (Hne : forall y, In y (shadow (frames st)) -> p_loc y <> sl) by (intros y Hin; specialize (Hsh y Hin); lia).
+  pose proof (Inv_after_rehook st s0 sl true H0 He Hx Hst Hsh) as H1.
+  set (s1 := with_exc (rehook_exception s0 sl) false) in *.
+  unfold plthook_entry. rewrite Hi0. fold s1.
+  change (bump (mk st (fresh st sl r [true] :: frames st) true false 1 []))
+    with (push (mk st (frames st) true false 0 []) sl r [true]).
+  assert (Hsl : m s1 sl = r).
+  { unfold s1; cbn [m with_exc]. rewrite (rehook_exception_mem_other st s0 sl sl H0 He Hst Hsh Hne). unfold s0; cbn [m with_m]. apply upd_same. }
+  set (e := new_ent s1 true k sl (kind_of kd arg)).
+  assert (Hpe : proj e = (sl, r, true)) by (unfold e, new_ent, proj; cbn [e_loc e_ip e_plt]; rewrite Hsl; reflexivity).
+  unfold plthook_push. fold e. change (inexc s1) with false.
+  (* the pushed entry after the optional flush *)
+  assert (Hfl : exists e1 anc1 recs, (if is_flush kd then rtd e (rs s1) else (e, rs s1, [])) = (e1, anc1, recs) /\
+            proj e1 = (sl, r, true) /\ e_lj e1 = false /\ map proj anc1 = map proj (rs s1) /\ nolj anc1).
+  { destruct (is_flush kd).
+    - pose proof (rtd_proj e (rs s1)) as R. pose proof (rtd_top_lj e (rs s1)) as Rl. pose proof (rtd_nolj e (rs s1) (i_nolj _ _ H1)) as Rn.
+      destruct (rtd e (rs s1)) as [[e1 anc1] recs]. destruct R as [R1 R2]. exists e1, anc1, recs.
+      split; [reflexivity|]. split; [rewrite R1; exact Hpe|]. split; [rewrite Rl; reflexivity|]. split; [exact R2|exact Rn].
+    - exists e, (rs s1), []. split; [reflexivity|]. split; [exact Hpe|]. split; [reflexivity|]. split; [reflexivity|exact (i_nolj _ _ H1)]. }
+  destruct Hfl as [e1 [anc1 [recs [E [P1 [P2 [P3 P4]]]]]]]. rewrite E.
+  assert (Eloc : e_loc e1 = e_loc e).
+  { apply proj_eq in P1. destruct P1 as [A _]. apply proj_eq in Hpe. destruct Hpe as [B _]. rewrite A, B. reflexivity. }
+  destruct Hk as [Hk|Hk]; subst kd;
+    (eapply Inv_push_hooked with (s := s1) (e := e1) (L' := anc1) (mm := m s1); eauto;
+     [apply mem_top_plain; [exact H1|reflexivity]
+     |intros a; cbn [m]; unfold auto_restore; destruct (rs s1) as [|prev rest]; [reflexivity|]; rewrite Eloc; reflexivity]).
 Qed.
